@@ -2,7 +2,6 @@ package c08
 
 import (
 	"fmt"
-	"os"
 	"strings"
 	"testing"
 
@@ -18,7 +17,7 @@ import (
 
 func TestMain(m *testing.M) {
 	document.SetGlobalLevel(document.LogLevelSilent)
-	kit.TestMain(m, 2500, 20000)
+	kit.TestMain(m, 2000, 20000)
 }
 
 // Step is one op of the body-editing history. Kinds beyond the shared ops:
@@ -27,20 +26,65 @@ func TestMain(m *testing.M) {
 // Mode (parallel to Ops, absent = 0) says how the text argument of an append constructor is passed:
 // 0 the drawn text followed by a per-op marker "#<i>" (never empty), 1 the drawn text as it is
 // (may be empty or blank), 2 the empty string.
+//
+// Kinds of this check that call the API directly (they are the calls that can be REJECTED with arguments the shared
+// generator never draws): pagesettings (SetPageSettings with a struct: S[0] size name, S[1] orientation as passed,
+// S[2] grid type, F[0..8] custom width/height, four margins, header/footer distance, gutter, I[0..1] grid pitch /
+// char space, B[0]: pass nil), orientraw (SetPageOrientation(S[0])), docgridraw (SetDocGrid(S[0], I[0], I[1])),
+// listitemnil (AddListItem(text, nil)); addelem I[0]==2 hands a SectionProperties element to Body.AddElement.
+//
+// Base (absent = document.New()) describes a package written by another producer that the history starts from
+// (opened with OpenFromMemory). Saves==1: the saved main part is judged after every call, not only at the drawn
+// save calls and at the end.
 type Case struct {
-	Ops  []ops.Op `json:"ops"`
-	Mode []int    `json:"mode,omitempty"`
+	Ops   []ops.Op `json:"ops"`
+	Mode  []int    `json:"mode,omitempty"`
+	Base  *Base    `json:"base,omitempty"`
+	Saves int      `json:"saves,omitempty"`
 }
 
 // textKinds are the append constructors whose first string argument is the text of the new element.
 var textKinds = map[string]bool{"para": true, "fpara": true, "heading": true, "headingbm": true, "headingbm2": true,
-	"listitem": true, "bullet": true, "numbered": true, "footnote": true, "endnote": true}
+	"listitem": true, "listitemnil": true, "bullet": true, "numbered": true, "footnote": true, "endnote": true}
 
 var appendKinds = []string{"para", "para", "fpara", "heading", "headingbm", "headingbm2", "pagebreak", "table", "image", "imagefile", "listitem", "bullet", "numbered",
-	"footnote", "endnote", "math", "mathlatex", "toc", "addelem"}
+	"footnote", "endnote", "math", "mathlatex", "toc", "addelem", "addelem", "listitemnil"}
 var removeKinds = []string{"rmhandle", "rmhandle", "rmparaat", "rmparaat", "rmelemat", "rmelemat"}
-var sectionKinds = []string{"pagesize", "custompage", "orient", "margins", "hfdist", "gutter", "docgrid", "cleargrid", "header", "footer", "headerpn", "fheader", "ffooter", "difffirst"}
-var otherKinds = []string{"align", "addtext", "pstyle", "save", "celltext", "props"}
+var sectionKinds = []string{"pagesize", "custompage", "custompage", "orient", "margins", "hfdist", "gutter", "docgrid", "cleargrid", "header", "footer", "headerpn", "fheader", "ffooter", "difffirst",
+	"pagesettings", "pagesettings", "pagesettings", "orientraw", "docgridraw"}
+var otherKinds = []string{"align", "addtext", "pstyle", "save", "save", "celltext", "props", "autotoc", "updatetoc"}
+
+// tocKinds are not body-editing calls of this property (C15 judges what they do when they succeed); here they are
+// only held to the clause for REJECTED calls.
+var tocKinds = map[string]bool{"autotoc": true, "updatetoc": true}
+
+var kindGroup = func() map[string]string {
+	m := map[string]string{}
+	for _, k := range appendKinds {
+		m[k] = "append"
+	}
+	for _, k := range sectionKinds {
+		m[k] = "section"
+	}
+	for _, k := range removeKinds {
+		m[k] = "remove"
+	}
+	return m
+}()
+
+// page dimensions / distances (mm) around the documented limits (custom sizes 12.7 .. 558.8 mm, nothing negative)
+var dims = []float64{0, -1, 5, 12.7, 100, 210, 297, 558.8, 600, 1000}
+var sizeNames = []string{"A4", "Letter", "Legal", "A3", "A5", "Custom", "Custom", "Custom"}
+var orientNames = []string{"portrait", "portrait", "landscape", "landscape", "diagonal", ""}
+
+func pageSizeOf(name string) document.PageSize {
+	for i, n := range sizeNames[:5] {
+		if n == name {
+			return ops.PageSizes[i]
+		}
+	}
+	return document.PageSizeCustom
+}
 
 var cfg = &ops.Config{Classes: gen.Expressible, Weights: ops.DefaultWeights}
 
@@ -71,7 +115,28 @@ func genStep(t *rapid.T) step {
 	case "rmhandle":
 		return step{ops.Op{K: k, S: []string{rapid.SampledFrom([]string{"live", "live", "live", "removed", "foreign", "nil"}).Draw(t, "hk")}, I: []int{rapid.IntRange(0, 60).Draw(t, "sel")}}, mode}
 	case "addelem":
-		return step{ops.Op{K: k, I: []int{rapid.IntRange(0, 1).Draw(t, "ek")}}, mode}
+		return step{ops.Op{K: k, I: []int{rapid.SampledFrom([]int{0, 1, 2, 2}).Draw(t, "ek")}}, mode}
+	case "listitemnil":
+		o := cfg.OpOf(t, "para")
+		o.K = k
+		return step{o, mode}
+	case "pagesettings":
+		d := func(l string) float64 { return rapid.SampledFrom(dims).Draw(t, l) }
+		m := func(l string) float64 { return rapid.SampledFrom([]float64{25.4, 25.4, 0, 10, -1}).Draw(t, l) }
+		return step{ops.Op{K: k,
+			S: []string{rapid.SampledFrom(sizeNames).Draw(t, "size"), rapid.SampledFrom(orientNames).Draw(t, "orient"), rapid.SampledFrom([]string{"", "lines", "default"}).Draw(t, "grid")},
+			F: []float64{d("cw"), d("ch"), m("mt"), m("mr"), m("mb"), m("ml"), m("hd"), m("fd"), m("gut")},
+			I: []int{rapid.IntRange(0, 600).Draw(t, "lp"), rapid.IntRange(0, 50).Draw(t, "cs")},
+			B: []bool{rapid.IntRange(0, 9).Draw(t, "nilps") == 0}}, mode}
+	case "custompage":
+		if rapid.Bool().Draw(t, "limits") {
+			return step{ops.Op{K: k, F: []float64{rapid.SampledFrom(dims).Draw(t, "cw"), rapid.SampledFrom(dims).Draw(t, "ch")}}, mode}
+		}
+	case "orientraw":
+		return step{ops.Op{K: k, S: []string{rapid.SampledFrom(orientNames).Draw(t, "orient")}}, mode}
+	case "docgridraw":
+		return step{ops.Op{K: k, S: []string{rapid.SampledFrom([]string{"", "", "lines", "default", "linesAndChars"}).Draw(t, "grid")},
+			I: []int{rapid.IntRange(-1, 600).Draw(t, "lp"), rapid.IntRange(-1, 50).Draw(t, "cs")}}, mode}
 	}
 	return step{cfg.OpOf(t, k), mode}
 }
@@ -79,10 +144,16 @@ func genStep(t *rapid.T) step {
 func genCase(t *rapid.T) Case {
 	// rapid's slices are short on average; a drawn lower bound keeps long histories as likely as short ones
 	// (the shrinker lowers the bound first and then deletes steps)
+	var c Case
+	if rapid.IntRange(0, 2).Draw(t, "opened") == 2 {
+		c.Base = genBase(t)
+	}
+	if rapid.IntRange(0, 7).Draw(t, "saves") == 7 {
+		c.Saves = 1
+	}
 	max := kit.Scale(40, 80)
 	min := rapid.IntRange(1, max*3/4).Draw(t, "atleast")
 	steps := rapid.SliceOfN(rapid.Custom(genStep), min, max).Draw(t, "steps")
-	var c Case
 	for _, s := range steps {
 		c.Ops = append(c.Ops, s.Op)
 		c.Mode = append(c.Mode, s.Mode)
@@ -202,7 +273,15 @@ func describeXML(n *canon.Node) string {
 	return "unknown:" + n.Name()
 }
 
-func checkSave(res *kit.Result, doc *document.Document, model []interface{}, where string) {
+// checkSave judges L4 on the document as it is now; it reports whether the clause held (or could not be judged:
+// the save itself was refused).
+func checkSave(res *kit.Result, doc *document.Document, model []interface{}, where string) bool {
+	n0 := len(res.Failures)
+	checkSave1(res, doc, model, where)
+	return len(res.Failures) == n0
+}
+
+func checkSave1(res *kit.Result, doc *document.Document, model []interface{}, where string) {
 	var b []byte
 	var err error
 	if p, st := kit.Try(func() { b, err = doc.ToBytes() }); p != nil {
@@ -210,6 +289,7 @@ func checkSave(res *kit.Result, doc *document.Document, model []interface{}, whe
 		return
 	}
 	if err != nil {
+		res.Count("save-refused", 1)
 		return
 	}
 	res.Eval("C08.L4")
@@ -256,370 +336,25 @@ func checkSave(res *kit.Result, doc *document.Document, model []interface{}, whe
 	}
 	if nsect > 1 {
 		res.Label("several-sectPr-in-model")
-	}
-}
-
-func run(c Case) *kit.Result {
-	res := &kit.Result{}
-	document.VerifResetGlobals()
-	dir, _ := os.MkdirTemp(kit.Scratch, "c08-")
-	defer os.RemoveAll(dir)
-	x := ops.NewExec(dir)
-	doc := x.Doc
-	other := document.New()
-	foreign := other.AddParagraph("foreign")
-	var model []interface{}
-	var removed []*document.Paragraph
-	hasSect := func() bool {
-		for _, e := range model {
-			if _, ok := e.(*document.SectionProperties); ok {
-				return true
-			}
-		}
-		return false
-	}
-	appends, kindsSeen, okRemovals, failedRemovals, sectBeforeAppend, sectMiddle := 0, map[string]bool{}, 0, 0, false, false
-	var shape []string
-	var fp []uint64 // content fingerprints of the model's elements before the call (nil = to be taken)
-	for i, op := range c.Ops {
-		before := append([]interface{}(nil), doc.Body.Elements...)
-		if !same(before, model) {
-			res.Fail("C08.L1", "before op %d the body is not the model", i)
-			return res
-		}
-		if fp == nil { // the previous call was allowed to change element content (or there was none)
-			fp = fingers(model)
-		}
-		// undisturbed reports the first element of the model (other than skip / section settings when
-		// exceptSect) whose content differs from what it was before the call (now = the list after the call, in which element skip is gone).
-		var fpNow []uint64 // fingerprints of the list after the call, filled by undisturbed
-		undisturbed := func(now []interface{}, skip int, exceptSect bool) (int, bool) {
-			fpNow = make([]uint64, 0, len(now))
-			j := 0
-			for k := range model {
-				if k == skip {
-					continue
-				}
-				if j >= len(now) {
-					break
-				}
-				f := finger(now[j])
-				if _, isSect := model[k].(*document.SectionProperties); !(exceptSect && isSect) && f != fp[k] {
-					return k, false
-				}
-				fpNow = append(fpNow, f)
-				j++
-			}
-			for ; j < len(now); j++ {
-				fpNow = append(fpNow, finger(now[j]))
-			}
-			return -1, true
-		}
-		mode := 0
-		if i < len(c.Mode) {
-			mode = c.Mode[i]
-		}
-		grp := "other"
-		var ret bool
-		var target interface{}
-		expectRemove := -2 // -2: not a removal; -1: must fail; >=0: index to be removed
-		var pan interface{}
-		var st string
-		switch op.K {
-		case "rmhandle":
-			grp = "remove"
-			var h *document.Paragraph
-			paras := []*document.Paragraph{}
-			for _, e := range model {
-				if p, ok := e.(*document.Paragraph); ok {
-					paras = append(paras, p)
-				}
-			}
-			switch op.S[0] {
-			case "live":
-				if len(paras) > 0 {
-					h = paras[ops.In(op.I[0], len(paras))]
-				}
-			case "removed":
-				if len(removed) > 0 {
-					h = removed[ops.In(op.I[0], len(removed))]
-				}
-			case "foreign":
-				h = foreign
-			}
-			expectRemove = -1
-			if h != nil {
-				if j := idx(model, h); j >= 0 {
-					expectRemove = j
-				}
-			}
-			target = h
-			res.Label("rmhandle:" + op.S[0])
-			pan, st = kit.Try(func() { ret = doc.RemoveParagraph(h) })
-		case "rmparaat":
-			grp = "remove"
-			np := 0
-			for _, e := range model {
-				if _, ok := e.(*document.Paragraph); ok {
-					np++
-				}
-			}
-			k := ops.Sel(op.I[0], np)
-			expectRemove = -1
-			cnt := 0
-			for j, e := range model {
-				if _, ok := e.(*document.Paragraph); ok {
-					if cnt == k {
-						expectRemove = j
-					}
-					cnt++
-				}
-			}
-			if k < 0 || k >= np {
-				res.Label("rm-out-of-range")
-			}
-			pan, st = kit.Try(func() { ret = doc.RemoveParagraphAt(k) })
-		case "rmelemat":
-			grp = "remove"
-			k := ops.Sel(op.I[0], len(model))
-			expectRemove = -1
-			if k >= 0 && k < len(model) {
-				expectRemove = k
-			} else {
-				res.Label("rm-out-of-range")
-			}
-			pan, st = kit.Try(func() { ret = doc.RemoveElementAt(k) })
-		case "addelem":
-			grp = "append"
-			var e interface{}
-			if op.I[0] == 0 {
-				e = &document.Paragraph{Runs: []document.Run{{Text: document.Text{Content: fmt.Sprintf("added%d", i)}}}}
-			} else {
-				t, _ := doc.CreateTable(&document.TableConfig{Rows: 1, Cols: 1, Width: 1000})
-				e = t
-			}
-			target = e
-			pan, st = kit.Try(func() { doc.Body.AddElement(e) })
-		default:
-			for _, k := range appendKinds {
-				if k == op.K {
-					grp = "append"
-				}
-			}
-			for _, k := range sectionKinds {
-				if k == op.K {
-					grp = "section"
-				}
-			}
-			// make paragraph texts distinguishable in the saved part
-			// (mode 0); modes 1 and 2 pass the drawn text itself / the empty string to the text constructors
-			if grp == "append" && len(op.S) > 0 && op.K != "math" && op.K != "mathlatex" && op.K != "toc" {
-				switch {
-				case mode == 1 && textKinds[op.K]:
-					res.Label("raw-text-append")
-				case mode == 2 && textKinds[op.K]:
-					op.S = append([]string{""}, op.S[1:]...)
-				default:
-					op.S = append([]string{fmt.Sprintf("%s#%d", op.S[0], i)}, op.S[1:]...)
-				}
-				if textKinds[op.K] && op.S[0] == "" {
-					res.Label("empty-text-append")
-					if op.K == "footnote" || op.K == "endnote" {
-						res.Label("empty-text-note")
-					}
-					if len(model) > 0 {
-						if _, ok := model[len(model)-1].(*document.Paragraph); ok {
-							res.Label("empty-text-append-after-paragraph")
-						}
-					}
-				}
-			}
-			var err error
-			pan, st = kit.Try(func() { err = x.Do(op) })
-			if err != nil {
-				grp += "-err"
-			}
-		}
-		if pan != nil {
-			res.Fail("C08.L0", "op %d %s panicked: %v [%s]", i, op.K, pan, st)
-			return res
-		}
-		after := doc.Body.Elements
-		shape = append(shape, op.K+":"+grp)
-		switch {
-		case grp == "remove":
-			res.Eval("C08.L3")
-			if expectRemove >= 0 {
-				if !ret {
-					res.Fail("C08.L3", "op %d %s: target exists at element index %d but the call reported failure", i, op.K, expectRemove)
-					return res
-				}
-				want := append(append([]interface{}(nil), model[:expectRemove]...), model[expectRemove+1:]...)
-				if !same(after, want) {
-					res.Fail("C08.L3", "op %d %s reported success but did not remove exactly element %d (len %d -> %d)", i, op.K, expectRemove, len(model), len(after))
-					return res
-				}
-				if k, ok := undisturbed(after, expectRemove, false); !ok {
-					res.Fail("C08.L3", "op %d %s removed element %d and also changed the content of element %d (%s)", i, op.K, expectRemove, k, describe(model[k]))
-					return res
-				}
-				if p, ok := model[expectRemove].(*document.Paragraph); ok {
-					removed = append(removed, p)
-				}
-				model = want
-				okRemovals++
-				if appends >= 4 {
-					res.Label("removal-after-4-appends")
-				}
-			} else {
-				if ret {
-					res.Fail("C08.L3", "op %d %s: target %v does not exist but the call reported success", i, op.K, target)
-					return res
-				}
-				if !same(after, model) {
-					res.Fail("C08.L3", "op %d %s reported failure but changed the body (len %d -> %d)", i, op.K, len(model), len(after))
-					return res
-				}
-				if k, ok := undisturbed(after, -1, false); !ok {
-					res.Fail("C08.L3", "op %d %s reported failure but changed the content of element %d (%s)", i, op.K, k, describe(model[k]))
-					return res
-				}
-				failedRemovals++
-			}
-		case strings.HasPrefix(grp, "append"):
-			res.Eval("C08.L1")
-			if len(after) < len(model) || !same(after[:len(model)], model) {
-				res.Fail("C08.L1", "op %d %s disturbed the existing elements (len %d -> %d)", i, op.K, len(model), len(after))
-				return res
-			}
-			// GenerateTOC is not one of the constructors the statement lists; what it may do to the headings it indexes is C15's
-			if op.K != "toc" {
-				if k, ok := undisturbed(after, -1, false); !ok {
-					res.Fail("C08.L1", "op %d %s changed the content of element %d, which was already there (it now reads %q)", i, op.K, k, describe(model[k]))
-					return res
-				}
-			}
-			grown := after[len(model):]
-			if grp == "append" && len(grown) == 0 {
-				res.Fail("C08.L1", "op %d %s succeeded but appended nothing", i, op.K)
-				return res
-			}
-			for _, e := range grown {
-				if idx(model, e) >= 0 {
-					res.Fail("C08.L1", "op %d %s appended an element that is already in the body", i, op.K)
-					return res
-				}
-				if _, ok := e.(*document.SectionProperties); ok && op.K != "addelem" {
-					res.Fail("C08.L1", "op %d %s appended section settings", i, op.K)
-					return res
-				}
-			}
-			if target != nil && (len(grown) != 1 || grown[0] != target) {
-				res.Fail("C08.L1", "op %d AddElement did not append exactly the given element", i)
-				return res
-			}
-			if len(grown) > 0 {
-				appends++
-				kindsSeen[op.K] = true
-				if hasSect() {
-					sectBeforeAppend = true
-					sectMiddle = true
-				}
-				if len(grown) > 1 {
-					res.Label("multi-element-append")
-				}
-			}
-			model = append(model, grown...)
-		case strings.HasPrefix(grp, "section"):
-			res.Eval("C08.L1")
-			if len(after) < len(model) || !same(after[:len(model)], model) {
-				res.Fail("C08.L1", "op %d %s (page/header call) disturbed the existing elements", i, op.K)
-				return res
-			}
-			if k, ok := undisturbed(after, -1, true); !ok {
-				res.Fail("C08.L1", "op %d %s (page/header call) changed the content of element %d (%s)", i, op.K, k, describe(model[k]))
-				return res
-			}
-			grown := after[len(model):]
-			if len(grown) > 1 {
-				res.Fail("C08.L1", "op %d %s appended %d elements", i, op.K, len(grown))
-				return res
-			}
-			if len(grown) == 1 {
-				if _, ok := grown[0].(*document.SectionProperties); !ok {
-					res.Fail("C08.L1", "op %d %s appended a %T", i, op.K, grown[0])
-					return res
-				}
-				if hasSect() {
-					res.Fail("C08.L1", "op %d %s created second section settings although the body already has them", i, op.K)
-					return res
-				}
-			}
-			model = append(model, grown...)
-		default:
-			if !same(after, model) {
-				res.Fail("C08.L1", "op %d %s (not a body-structure call) changed the element list", i, op.K)
-				return res
-			}
-		}
-		// L2 accessors
-		res.Eval("C08.L2")
-		var wp []*document.Paragraph
-		var wt []*document.Table
-		for _, e := range model {
-			switch v := e.(type) {
-			case *document.Paragraph:
-				wp = append(wp, v)
-			case *document.Table:
-				wt = append(wt, v)
-			}
-		}
-		gp, gt := doc.Body.GetParagraphs(), doc.Body.GetTables()
-		if len(gp) != len(wp) || len(gt) != len(wt) {
-			res.Fail("C08.L2", "after op %d: GetParagraphs/GetTables return %d/%d, model has %d/%d", i, len(gp), len(gt), len(wp), len(wt))
-			return res
-		}
-		for j := range gp {
-			if gp[j] != wp[j] {
-				res.Fail("C08.L2", "after op %d: GetParagraphs()[%d] is not the model's paragraph", i, j)
-				return res
-			}
-		}
-		for j := range gt {
-			if gt[j] != wt[j] {
-				res.Fail("C08.L2", "after op %d: GetTables()[%d] is not the model's table", i, j)
-				return res
-			}
-		}
-		if op.K == "save" {
-			checkSave(res, doc, model, fmt.Sprintf("save at op %d", i))
-		}
-		fp = nil
-		if len(fpNow) == len(model) && (grp == "remove" || strings.HasPrefix(grp, "append") || strings.HasPrefix(grp, "section")) {
-			fp = fpNow // judged calls: the list after the call has just been fingerprinted
+		if _, ok := model[len(model)-1].(*document.SectionProperties); ok {
+			res.Label("saved-with-sectPr-last-and-another-earlier")
 		}
 	}
-	checkSave(res, doc, model, "final save")
-	if sectMiddle {
-		res.Label("sectPr-in-the-middle")
-	}
-	if failedRemovals > 0 {
-		res.Label("failed-removal")
-	}
-	res.Nontrivial = okRemovals >= 1 && appends >= 4 && len(kindsSeen) >= 3 && sectBeforeAppend
-	res.Shape = strings.Join(shape, "|")
-	return res
 }
 
 func TestC08(t *testing.T) {
 	kit.Main(t, kit.Spec[Case]{
 		ID: "C08", Level: "exploration",
-		Rule: "history of 1-40 (thorough 1-80) body-editing calls: every append constructor (text-taking ones with the drawn text plus a per-call marker, the drawn text as it is, or the empty string), removals by handle (live, already removed, foreign, nil) / paragraph index / element index with selectors covering -1, every valid index, n, n+1, and page-setting/header/footer calls that create section settings at arbitrary points; reference model = slice of element identities compared pointer-for-pointer after every call, a content fingerprint of every element already there compared across every append, removal and page/header call, plus the child order of w:body at drawn saves and at the end. non-trivial = >=1 successful removal after >=4 appends of >=3 kinds with section settings created before the last append; distinct = distinct sequence of (op kind, outcome group)",
-		Gen:  genCase, Run: run, Findings: findings,
+		Rule: "history of 1-40 (thorough 1-80) body-editing calls on a new document or (1 in 3) on a document OPENED from a package written by the harness with string templates (1-7 body children: paragraphs, paragraphs that end a section (w:sectPr inside w:pPr), tables, body-level bookmarks, content controls; body-level w:sectPr in four forms or absent): every append constructor (text-taking ones with the drawn text plus a per-call marker, the drawn text as it is, or the empty string; AddListItem also with a nil config; Body.AddElement with a paragraph, a table or a section element), removals by handle (live, already removed, foreign, nil) / paragraph index / element index with selectors covering -1, every valid index, n, n+1, and page-setting/header/footer calls that create section settings at arbitrary points, among them calls with arguments the API rejects (SetPageSettings with nil / custom sizes at and beyond the limits / unknown orientation, SetCustomPageSize and the distance setters with values at and beyond the limits, SetPageOrientation with unknown values, SetDocGrid without a type, AddTable without rows/columns, cell edits outside the table, AutoGenerateTOC/UpdateTOC without headings/TOC); reference model = slice of element identities compared pointer-for-pointer after every call, a content fingerprint of every element already there compared across every append, removal, page/header call and every REJECTED call (error returned => list and contents as before), plus the child order of w:body at drawn saves, at the end, right after opening, after every call while the list holds more than one section element, and (1 case in 8) after every call. non-trivial = >=1 successful removal after >=4 appends of >=3 kinds with section settings present before the last append; distinct = distinct sequence of (op kind, outcome group) and start document",
+		Gen:  genCase, Run: run, Findings: findings, Fixed: fixedCases,
 		MustSee: map[string]float64{"rm-out-of-range": 0.3, "rmhandle:removed": 0.1, "rmhandle:foreign": 0.1, "sectPr-in-the-middle": 0.2, "multi-element-append": 0.2, "failed-removal": 0.3,
-			"empty-text-append": 0.3, "empty-text-append-after-paragraph": 0.2, "empty-text-note": 0.05, "raw-text-append": 0.3},
-		Assumptions: []string{"AutoGenerateTOC (prepends by design) and UpdateTOC are not append operations and are judged under C15",
+			"empty-text-append": 0.3, "empty-text-append-after-paragraph": 0.2, "empty-text-note": 0.05, "raw-text-append": 0.3,
+			"rejected-call": 0.3, "rejected-page-call": 0.15, "rejected-page-call-before-any-sectPr": 0.05, "opened-base": 0.2, "opened-with-inner-sectPr": 0.08,
+			"several-sectPr-in-model": 0.1, "saved-with-sectPr-last-and-another-earlier": 0.08, "saved-after-every-call": 0.05, "addelem-sectPr": 0.1},
+		Assumptions: []string{"AutoGenerateTOC (prepends by design) and UpdateTOC are not append operations and are judged under C15; here they are only held to the clause for rejected calls (error => body unchanged), after a successful one the model is re-read from the document",
 			"3 of 5 text-taking appends carry a per-op marker so that the saved children can be matched to model elements, the others pass the drawn text unchanged or the empty string; text is drawn from XML-expressible classes",
-			"GenerateTOC is not among the constructors the statement lists: the content-fingerprint clause does not apply to it (the list clauses do)"},
+			"GenerateTOC is not among the constructors the statement lists: the content-fingerprint clause does not apply to it (the list clauses do)",
+			"L5 (a call that returns an error leaves the element list and every element's content as they were) generalises the statement's 'reports failure without changing anything' from removals to every rejecting call: a rejected call is neither an append nor a removal",
+			"for a history that starts from an opened document the model starts as the element list OpenFromMemory delivered (what the reader makes of the package is C09's subject); when that list holds two section elements (a section break inside a paragraph plus the body-level one) the statement does not say which one is kept: L4 demands only what it states - every other element once and in order, exactly one body-level w:sectPr, last"},
 	})
 }
